@@ -396,7 +396,11 @@ type base struct {
 }
 
 func (b *base) Append(ctx context.Context, e *ebu.Event) (ebu.Offset, error) {
-	a, idx, dead := b.f.begin("append", e.Type)
+	arg := e.Type + " " + string(e.Data)
+	if len(arg) > 160 {
+		arg = arg[:160]
+	}
+	a, idx, dead := b.f.begin("append", arg)
 	if dead {
 		return "", ErrDead
 	}
